@@ -180,3 +180,188 @@ Example weak_hash_is_fooled :
 Proof. vm_compute. reflexivity. Qed.
 Example weak_hash_collides : Collision weakH.
 Proof. exists [0; 1], [1; 1]. split; [discriminate|reflexivity]. Qed.
+
+(* ========================================================================
+   Callers that KEEP CALLING Read after an error or after end of stream.
+
+   [read_trace] above stops at the first status other than ROk.  Below the
+   history is arbitrary: [read_all_calls H s0 sizes] (Proofs/MiceRetry.v)
+   lists, for every call, the bytes it delivered and its status, each call
+   being made on the state the previous one left behind WHATEVER its status:
+
+     read_all_calls s []       = []
+     read_all_calls s (k :: t) = let '(s', o, st) := read H s k in
+                                 (o, st) :: read_all_calls s' t
+   ======================================================================== *)
+From WP Require Import Proofs.MiceRetry.
+
+(* the new definition extends the old one: read_trace is what one sees of
+   read_all_calls up to and including the first call that is not ROk *)
+Theorem C15_read_trace_is_calls_prefix :
+  forall (H : bytes -> bytes) (sizes : list N) (s : dec) (acc : bytes),
+    read_trace H s sizes acc = trace_of (read_all_calls H s sizes) acc.
+Proof. exact read_trace_calls. Qed.
+Print Assumptions C15_read_trace_is_calls_prefix.
+
+(* MAIN: any stream s, any header string dg, any limit, any history of Read
+   calls, continuing past errors and past EOF.  ALL bytes ever delivered,
+   across errors, form a prefix of the committed payload, and a clean EOF at
+   any point of the history comes only after the complete payload. *)
+Theorem C15_reads_after_error_only_committed :
+  forall (H : bytes -> bytes) (d : draft) (s dg : bytes) (maxrs : N) (sizes : list N)
+         (recs : list bytes) (top : bytes) (s0 : dec),
+    parse_digest_header d dg = Ok top -> Commits H top recs ->
+    new_decoder H d s dg maxrs = Ok s0 ->
+    let calls := read_all_calls H s0 sizes in
+    ((exists rest, List.concat recs = List.concat (map fst calls) ++ rest) /\
+     (forall i o, nth_error calls i = Some (o, REOF) ->
+        List.concat (map fst (firstn (S i) calls)) = List.concat recs))
+    \/ Collision H.
+Proof. exact reads_after_error_only_committed. Qed.
+Print Assumptions C15_reads_after_error_only_committed.
+
+(* once a call has returned EOF (it delivers nothing itself), every later
+   call returns no bytes and EOF.  True of EVERY decoder state, reachable or
+   not, both drafts, no assumption on the hash, no digest needed. *)
+Theorem C15_after_eof_only_eof :
+  forall (H : bytes -> bytes) (sizes : list N) (s : dec) (i j : nat)
+         (o : bytes) (x : bytes * rstat),
+    nth_error (read_all_calls H s sizes) i = Some (o, REOF) ->
+    (i <= j)%nat -> nth_error (read_all_calls H s sizes) j = Some x ->
+    x = ([], REOF).
+Proof. exact after_eof_only_eof. Qed.
+Print Assumptions C15_after_eof_only_eof.
+
+(* a failed call delivers nothing, and whatever the calls after it deliver
+   continues the committed payload exactly where the calls before it stopped *)
+Theorem C15_error_then_no_progress_unless_authentic :
+  forall (H : bytes -> bytes) (d : draft) (s dg : bytes) (maxrs : N) (sizes : list N)
+         (recs : list bytes) (top : bytes) (s0 : dec),
+    parse_digest_header d dg = Ok top -> Commits H top recs ->
+    new_decoder H d s dg maxrs = Ok s0 ->
+    forall (pre : list (bytes * rstat)) (o : bytes) (post : list (bytes * rstat)),
+      read_all_calls H s0 sizes = pre ++ (o, RErr) :: post ->
+      o = [] /\
+      ((exists rest, List.concat recs
+                     = List.concat (map fst pre) ++ List.concat (map fst post) ++ rest)
+       \/ Collision H).
+Proof. exact error_then_no_progress_unless_authentic. Qed.
+Print Assumptions C15_error_then_no_progress_unless_authentic.
+
+(* end to end, honest encoder: the header produced for payload p, ANY stream *)
+Theorem C15_reads_after_error_authentic :
+  forall (H : bytes -> bytes),
+    (forall x, List.length (H x) = 32%nat) -> (forall x, wfb (H x)) ->
+  forall (d : draft) (rs : N) (p s : bytes) (maxrs : N) (sizes : list N) (s0 : dec),
+    1 <= rs ->
+    new_decoder H d s (digest_header H d rs p) maxrs = Ok s0 ->
+    let calls := read_all_calls H s0 sizes in
+    ((exists rest, p = List.concat (map fst calls) ++ rest) /\
+     (forall i o, nth_error calls i = Some (o, REOF) ->
+        List.concat (map fst (firstn (S i) calls)) = p))
+    \/ Collision H.
+Proof. exact reads_after_error_authentic. Qed.
+Print Assumptions C15_reads_after_error_authentic.
+
+(* ---- concrete histories with SHA-256 ------------------------------------- *)
+(* 12-byte payload, record size 8: two records (8 + 4 bytes).
+   layout: [0,8) size | [8,16) r0 | [16,48) proof1 | [48,52) r1 *)
+Definition msg2 : bytes := s2b "watermelon!!".
+Definition strm2 (d : draft) : bytes := stream sha256 d 8 msg2.
+Definition hdr2 (d : draft) : bytes := digest_header sha256 d 8 msg2.
+Definition calls_on (d : draft) (s : bytes) (sizes : list N) : option (list (bytes * rstat)) :=
+  match new_decoder sha256 d s (hdr2 d) 16384 with
+  | Ok s0 => Some (read_all_calls sha256 s0 sizes)
+  | _ => None
+  end.
+
+Example retry_intact :
+  calls_on D03 (strm2 D03) [5; 5; 5; 5; 5]
+  = Some [(firstn 5 msg2, ROk); (firstn 3 (skipn 5 msg2), ROk); (skipn 8 msg2, ROk);
+          ([], REOF); ([], REOF)].
+Proof. vm_compute. reflexivity. Qed.
+
+(* one bit flipped in the FINAL record: the first record is delivered, then
+   every further call fails and delivers nothing - in particular the second
+   Read after the validation failure does not hand out the unauthenticated
+   record, and there is never a clean EOF *)
+Example retry_final_record_altered :
+  calls_on D03 (flip 50 (strm2 D03)) [5; 5; 5; 5; 5]
+  = Some [(firstn 5 msg2, ROk); (firstn 3 (skipn 5 msg2), ROk);
+          ([], RErr); ([], RErr); ([], RErr)].
+Proof. vm_compute. reflexivity. Qed.
+Example retry_final_record_altered_02 :
+  calls_on D02 (flip 50 (strm2 D02)) [5; 5; 5; 5; 5]
+  = Some [(firstn 5 msg2, ROk); (firstn 3 (skipn 5 msg2), ROk);
+          ([], RErr); ([], RErr); ([], RErr)].
+Proof. vm_compute. reflexivity. Qed.
+(* same with one bit flipped in the proof of the final record *)
+Example retry_final_proof_altered :
+  calls_on D03 (flip 20 (strm2 D03)) [5; 5; 5; 5; 5]
+  = Some [([], RErr); ([], RErr); ([], RErr); ([], RErr); ([], RErr)].
+Proof. vm_compute. reflexivity. Qed.
+
+(* a junk unit (8 + 32 bytes) inserted in front of the honest records: the
+   first call fails; the decoder has consumed the junk and still holds the
+   top-level proof, so later calls deliver the authentic payload, then EOF *)
+Example retry_junk_record_in_front :
+  calls_on D03 (firstn 8 (strm2 D03) ++ repeat 7 40 ++ skipn 8 (strm2 D03)) [5; 5; 5; 5; 5; 5; 5]
+  = Some [([], RErr); (firstn 5 msg2, ROk); (firstn 3 (skipn 5 msg2), ROk); (skipn 8 msg2, ROk);
+          ([], REOF); ([], REOF); ([], REOF)].
+Proof. vm_compute. reflexivity. Qed.
+Example retry_junk_record_in_front_02 :
+  calls_on D02 (firstn 8 (strm2 D02) ++ repeat 7 40 ++ skipn 8 (strm2 D02)) [5; 5; 5; 5; 5; 5; 5]
+  = Some [([], RErr); (firstn 5 msg2, ROk); (firstn 3 (skipn 5 msg2), ROk); (skipn 8 msg2, ROk);
+          ([], REOF); ([], REOF); ([], REOF)].
+Proof. vm_compute. reflexivity. Qed.
+(* junk between the two honest units *)
+Example retry_junk_record_in_the_middle :
+  calls_on D03 (firstn 48 (strm2 D03) ++ repeat 7 40 ++ skipn 48 (strm2 D03)) [8; 8; 8; 8]
+  = Some [(firstn 8 msg2, ROk); ([], RErr); (skipn 8 msg2, ROk); ([], REOF)].
+Proof. vm_compute. reflexivity. Qed.
+
+(* ---- the hypotheses of the new theorems are satisfiable: the general
+   theorem instantiated on the altered stream ------------------------------- *)
+Definition top2 : bytes := Eval vm_compute in digest sha256 D03 8 msg2.
+Example hdr2_parses : parse_digest_header D03 (hdr2 D03) = Ok top2.
+Proof. vm_compute. reflexivity. Qed.
+Example top2_commits : Commits sha256 top2 [firstn 8 msg2; skipn 8 msg2].
+Proof.
+  apply (CMore sha256 _ _ (sha256 (skipn 8 msg2 ++ [0])));
+    [discriminate|vm_compute; reflexivity|vm_compute; reflexivity|].
+  apply CLast. reflexivity.
+Qed.
+Definition s0_altered : dec :=
+  {| d_enc := D03; d_rs := 8; d_r := skipn 8 (flip 50 (strm2 D03));
+     d_next := Some top2; d_out := [] |}.
+Example altered_opens :
+  new_decoder sha256 D03 (flip 50 (strm2 D03)) (hdr2 D03) 16384 = Ok s0_altered.
+Proof. vm_compute. reflexivity. Qed.
+Example retry_instance :
+  let calls := read_all_calls sha256 s0_altered [5; 5; 5; 5; 5] in
+  ((exists rest, msg2 = List.concat (map fst calls) ++ rest) /\
+   (forall i o, nth_error calls i = Some (o, REOF) ->
+      List.concat (map fst (firstn (S i) calls)) = msg2))
+  \/ Collision sha256.
+Proof.
+  exact (C15_reads_after_error_only_committed sha256 D03 _ _ _ [5; 5; 5; 5; 5] _ _ _
+           hdr2_parses top2_commits altered_opens).
+Qed.
+Example retry_error_split :
+  read_all_calls sha256 s0_altered [5; 5; 5; 5; 5]
+  = [(firstn 5 msg2, ROk); (firstn 3 (skipn 5 msg2), ROk)] ++ ([], RErr) :: [([], RErr); ([], RErr)].
+Proof. vm_compute. reflexivity. Qed.
+Example retry_eof_premise :
+  nth_error (read_all_calls sha256
+               {| d_enc := D03; d_rs := 8; d_r := skipn 8 (strm2 D03);
+                  d_next := Some top2; d_out := [] |} [8; 8; 8; 8]) 2 = Some ([], REOF).
+Proof. vm_compute. reflexivity. Qed.
+
+(* ---- the collision disjunct cannot be dropped here either ----------------- *)
+Example weak_hash_is_fooled_after_error :
+  match new_decoder weakH D03 (be 8 4 ++ repeat 7 36 ++ [9; 9])
+                    (digest_header weakH D03 4 [1; 2; 3]) 16 with
+  | Ok s0 => read_all_calls weakH s0 [8; 8; 8; 8]
+  | _ => []
+  end = [([], RErr); ([9; 9], ROk); ([], REOF); ([], REOF)].
+Proof. vm_compute. reflexivity. Qed.
